@@ -29,6 +29,9 @@ var overlayDirs = map[string]string{
 	"conncommand": "minter-connector/command",
 	"connminter": "minter-connector/minter",
 	"conncontext": "minter-connector/context",
+	"connmain": "minter-connector/cmd/mhub-minter-connector",
+	"conntxc": "minter-connector/tx_committer",
+	"connconfig": "minter-connector/config",
 	"otypes": "module/x/oracle/types",
 }
 
